@@ -224,8 +224,11 @@ func VerifSubRequests() {
 		}
 	}
 	for _, p := range vSortedPairs(client) {
-		if p.field == "__typename" {
-			continue
+		if len(p.field) > 2 && p.field[:2] == "__" {
+			continue // __typename, and the introspection fields the gateway answers itself
+		}
+		if len(p.typ) > 2 && p.typ[:2] == "__" {
+			continue // selections inside an introspection field
 		}
 		verifAssert(covered[p], "every client-selected field is requested from a service that declares it: "+p.typ+"."+p.field)
 	}
